@@ -77,6 +77,17 @@ def reset_world(collect=False):
     p = _boot["pbase"].__parsers__
     p.clear()
     p.update(_boot["parsers_snap"])
+    # memoising wrappers (functools.lru_cache / cache) anywhere in utype are process-global state as well: a change to the
+    # library may add one, and a warm cache left by an earlier run would make that run's successor irreproducible
+    for mname, mod in list(sys.modules.items()):
+        if mod is not None and (mname == "utype" or mname.startswith("utype.")):
+            for obj in list(mod.__dict__.values()):
+                cc = getattr(obj, "cache_clear", None)
+                if cc is not None and callable(cc) and not isinstance(obj, type):
+                    try:
+                        cc()
+                    except Exception:  # noqa
+                        pass
     from . import faults
     faults.reset()
     _world_counter[1] += 1
